@@ -25,11 +25,11 @@ DED = {
     "C02": BASES + ": non-white-space tokens (so every comment, pragma and preprocessor token of the region) are the same objects in the same order with unchanged values; the phase-1 normalisers keep them too; the classifier of single-line comments (classify_single_line_comment) makes exactly the text from a '--' token outside a delimited comment up to the trailing white space into ONE comment token: no character of the line is lost or duplicated, tokens in front are untouched; remove_leading / remove_trailing_whitespace_and_comments (the cut of an if / elsif condition): what is cut off is white space and comments only -- ALL of them -- and the rest starts / ends with code, so that nothing a rule puts around the condition lands behind a comment",
     "C03": BASES + " (white-space rules write white-space tokens only; case rules change letter case only, same length); rule_list.fix calls Rule.fix only for error-type severities of enabled rules and Rule.fix does nothing at all when fixable is false (ghost operation log)",
     "C06": "rule_list.check_rules analyses exactly the enabled rules of the visited phases, each once, and modifies nothing but rule.violations and its own counters (frame proved against the assumed frame of Rule.analyze); add_violation / has_code_tag decide suppression from the stamped tags only",
-    "C07": "the extraction helpers behind the three largest rule bases (get_tokens_matching, get_tokens_at_beginning_of_line_matching, get_sequence_of_tokens_matching: 516 rules) return regions whose recorded line is the line of their first token (1 + line breaks in front of the recorded start), given that the index agrees with the list; whitespace_before_token._get_tokens_of_interest (32 rules): get_token_and_n_tokens_before_it records the line of the matched (last) token, and the guard against line breaks among the first two tokens plus the re-count in extract_tokens make every region the rule hands on carry the line of its first token; extract_tokens: a sub-region's line is the region's line plus the line breaks skipped, its start index the region's start plus the tokens skipped; count_carriage_returns counts line breaks; " + BASES + ": the number of line breaks of the region is unchanged",
+    "C07": "the extraction helpers behind the three largest rule bases (get_tokens_matching, get_tokens_at_beginning_of_line_matching, get_sequence_of_tokens_matching: 516 rules) return regions whose recorded line is the line of their first token (1 + line breaks in front of the recorded start), given that the index agrees with the list; whitespace_before_token._get_tokens_of_interest (32 rules): get_token_and_n_tokens_before_it records the line of the matched (last) token, and the guard against line breaks among the first two tokens plus the re-count in extract_tokens make every region the rule hands on carry the line of its first token; extract_tokens: a sub-region's line is the region's line plus the line breaks skipped, its start index the region's start plus the tokens skipped; count_carriage_returns counts line breaks; " + BASES + ": the number of line breaks of the region is unchanged; ORDER: get_tokens_matching, get_tokens_at_beginning_of_line_matching, its between-tokens-unless variant (generic_004) and get_token_and_n_tokens_before_it return their regions in the order of the list (the position behind each region's last token never decreases), which vhdlFile.update assumes when it splices from the last region to the first (get_indexes_of_token_list is ascending, filter_indexes_in_unless_regions keeps the order)",
     "C08": "apply_rules: with --fix the single write happens after all fixing, exactly when some _fix_violation ran, and what is written is get_lines() of the model the final report is computed from (nothing between the write and the report modifies the token list); get_lines is the per-line concatenation of token values; write_vhdl_file writes join(get_lines()[1:]) + newline; the phase-1 normalisers and update_token_map are verified (index == INDEX(list) afterwards); rule_list.fix runs set_token_indent before phase 4 and the normalisers after phase 1",
     "C09": "rule_list.fix: fixed order of phases, sub-phases and rules (a function of the rule list only), normalisers after phase 1, indent refresh before phase 4; enforce_prerequisites puts every rule that names prerequisites behind all rules of its sub-phase that name none, independently of which rules are enabled; the normalisers are idempotent-compatible filters (keep non-blank tokens and line breaks)",
     "C10": "Rule.fix analyses, filters, fixes each violation once and updates once; " + BASES + " have postconditions that state the region carries the requested white space / indentation / case afterwards; vhdlFile.update rebuilds the index iff bUpdateMap; whitespace_between_tokens._analyze: the width every violation asks for is a width the same analysis accepts for the option value in force (integer, '>N', '>=N', '<N', '<=N', 'N+'), so the rule cannot report again right after its own fix",
-    "C18": "the extraction helpers behind the three largest rule bases (get_tokens_matching, get_tokens_at_beginning_of_line_matching, get_sequence_of_tokens_matching: 516 rules) and get_tokens_bounded_by (41 direct users) return regions that are exactly the slice of the token list at their recorded start (lengths 1, 1-2, len(sequence)), given that the index agrees with the list (the property's first clause, assumed there and observed at every analysis); rule_list.fix re-indexes after the phase-1 normalisers and nowhere else touches the list outside Rule.fix; vhdlFile.update: splice semantics and 'index rebuilt from the new list iff bUpdateMap'; update_token_map: index == INDEX(list); calculate_end_index / extract_tokens: [iStartIndex, iEndIndex) has as many positions as the region has real tokens and sub-regions shift the start by the tokens skipped; token_case._fix_violation keeps the region's token objects (remap=False is sound for it)",
+    "C18": "the extraction helpers behind the three largest rule bases (get_tokens_matching, get_tokens_at_beginning_of_line_matching, get_sequence_of_tokens_matching: 516 rules) and get_tokens_bounded_by (41 direct users) return regions that are exactly the slice of the token list at their recorded start (lengths 1, 1-2, len(sequence)), given that the index agrees with the list (the property's first clause, assumed there and observed at every analysis); rule_list.fix re-indexes after the phase-1 normalisers and nowhere else touches the list outside Rule.fix; vhdlFile.update: splice semantics and 'index rebuilt from the new list iff bUpdateMap'; update_token_map: index == INDEX(list); calculate_end_index / extract_tokens: [iStartIndex, iEndIndex) has as many positions as the region has real tokens and sub-regions shift the start by the tokens skipped; token_case._fix_violation keeps the region's token objects (remap=False is sound for it); ORDER: the regions of get_tokens_matching, get_tokens_at_beginning_of_line_matching, its between-tokens-unless variant and get_token_and_n_tokens_before_it come in list order (ends never decrease), one half of what update() assumes about its argument (P_update; disjointness and the order of the other extractors stay assumed and observed)",
     "C19": "vsg/tokens.py raises nothing for any string; apply_rules lets no ClassifyError / ConfigurationError / local-rules OSError escape, returns exit status True/1 for a rejected file and 'keep processing' after a syntax error; detect_subelement_until / classify_subelement_until (the statement-part loops of the parser) terminate (decreases clause) given that a classifier never returns an index in front of its argument, and so do the eight <x>_part.detect loops that repeat an item detector until it makes no progress (process / subprogram statement parts, sequence_of_statements, the declarative parts of processes, subprograms, packages, package bodies, configurations); the classifier itself: for each of its 389 token-walking functions a position contract GENERATED from the source (0 <= iToken <= len => iToken <= result <= len, the token list keeps its length, every while loop with the measure 'distance to the end of the list'), verified against the generated contracts of its callees -- 346 verify, the others are assumed and listed (contracts/parser_unverified.json); the token helpers of vhdlFile/utils.py (assign_next_token*, assign_tokens_until*, tokenize_label, find_in_*, detect_submodule, the parenthesis matchers) by hand; what is proved is partial correctness of the positions plus termination of every loop under contract, NOT termination of the recursion between classifiers; object_value_is raises IndexError exactly for an index past the end; the three fix bases above raise nothing under their preconditions",
 }
 
